@@ -7,8 +7,8 @@ import (
 	"net"
 )
 
-// VerifToBytes = toBytes
-func VerifToBytes(a net.Addr, fwdType int) []byte { return toBytes(a, fwdType) }
+// VerifWireToBytes = toBytes
+func VerifWireToBytes(a net.Addr, fwdType int) []byte { return toBytes(a, fwdType) }
 
-// VerifReadPacket = readPacket
-func VerifReadPacket(r io.Reader) (net.Addr, byte, error) { return readPacket(r) }
+// VerifWireReadPacket = readPacket
+func VerifWireReadPacket(r io.Reader) (net.Addr, byte, error) { return readPacket(r) }
